@@ -20,6 +20,7 @@ from __future__ import annotations
 import json
 import random
 import warnings
+from collections import Counter
 
 from harness import monitor_probe as P
 from harness.common import Ctx, LeanDriver, lean_stage, thorough_rebuild, tok
@@ -334,6 +335,7 @@ def run(ctx: Ctx) -> None:
         _serve_all(ctx, drv, mon, get_routes, static, value_classes)
         _classification(ctx, drv)
         _queue_correspondence(ctx, drv, mon)
+        _queue_faults(ctx, drv, mon)
         _post_sensitivity(ctx, mon, post_routes, static)
         _fresh_monitor(ctx, mon, get_routes)
     finally:
@@ -385,8 +387,10 @@ def _serve_all(ctx: Ctx, drv: LeanDriver, mon: Monitor, get_routes: list[dict], 
             nontrivial = bool(w.inv)
             for route in get_routes:
                 hname = route["module"] + "." + route["func"]
-                for mode in MODES:
-                    for v in range(variants if mode != "existing" else variants + extra_existing):
+                for mode in (*MODES, "full"):
+                    if mode == "full" and len(qnames[route["func"]]) < 2:
+                        continue        # nothing to combine
+                    for v in range(variants + 1 if mode == "full" else variants if mode != "existing" else variants + extra_existing):
                         seed = f"{ctx.seed}:{fam}:{route['path']}:{mode}:{v}"
                         built = P.build_url(route, w, random.Random(seed), mode, qnames[route["func"]])
                         if built is None:
@@ -704,6 +708,56 @@ def _queue_correspondence(ctx: Ctx, drv: LeanDriver, mon: Monitor) -> None:
     ctx.obligation("refutations replay on the real brokers: the pre-repair loop rotates long queues and drops messages on a missing record",
                    old_rot > 0 and old_drop > 0, f"rotations {old_rot}, drops {old_drop}")
     ctx.notes["old_handler_replays"] = {"rotated": old_rot, "dropped": old_drop}
+
+
+def _queue_faults(ctx: Ctx, drv: LeanDriver, mon: Monitor) -> None:
+    """GET /broker/queue while the broker fails: the k-th `retrieve_invocation` of the request raises (a locked database, a
+    dropped connection).  The page fails; the queue afterwards must hold exactly the messages it held (`queueViewFault`,
+    theorem `queueView_fault_keeps_messages`): nothing popped before the fault may be lost."""
+    import sqlite3
+
+    nd = n = 0
+    first = ""
+    for kind in ("mem", "sqlite"):
+        for nmsg in ((3, 6) if ctx.quick else (1, 3, 6, 9)):
+            for k in range(0, nmsg):       # the handler pops exactly `count_invocations()` times
+                w = P.World(kind, ctx.tmp, tag="qx")
+                for j in range(nmsg):
+                    w.apply(["call", "add", [j, k]])
+                mon.point_at(w.app)
+                q0 = P.queue_in_order(w.app, kind)
+                broker = w.app.broker
+                orig = broker.retrieve_invocation
+                seen = {"n": 0}
+
+                def failing(orig=orig, seen=seen, k=k):  # type: ignore[no-untyped-def]
+                    seen["n"] += 1
+                    if seen["n"] == k + 1:
+                        raise sqlite3.OperationalError("database is locked")
+                    return orig()
+
+                broker.retrieve_invocation = failing  # type: ignore[method-assign]
+                try:
+                    resp, _served = mon.get("/broker/queue?limit=3")
+                finally:
+                    del broker.retrieve_invocation
+                qa = P.queue_in_order(w.app, kind)
+                n += 1
+                ctx.count()
+                ctx.distinct((kind, "queue-fault", nmsg, k))
+                rep = {"kind": kind, "family": "queue-fault", "messages": nmsg, "fault_at_retrieve": k + 1, "status": resp.status_code}
+                lost = list((Counter(q0) - Counter(qa)).elements())
+                gained = list((Counter(qa) - Counter(q0)).elements())
+                if lost or gained:
+                    ctx.report("get-mutates:pynmon.views.broker.queue_view:queue-lost-messages-on-broker-fault" if lost else "get-mutates:pynmon.views.broker.queue_view:queue-gained-messages-on-broker-fault",
+                               f"[{kind}] GET /broker/queue on {nmsg} queued messages while retrieve_invocation call #{k + 1} raises (HTTP {resp.status_code}): "
+                               f"{len(lost)} message(s) lost, {len(gained)} gained", rep)
+                outs = drv.ask_many(["mon.reset", *[f"mon.rec {tok(i)}" for i in q0], *[f"mon.route {tok(i)}" for i in q0], f"mon.queueview_fault {k}", "mon.queue"])
+                i_q = "[]" if not qa else " ".join(tok(i) for i in qa)
+                if outs[-1] != i_q or resp.status_code != 500:
+                    nd += 1
+                    first = first or f"[{kind}] {nmsg} queued, fault at retrieve #{k + 1}: impl HTTP {resp.status_code} queue {i_q[:80]} / model {outs[-1][:80]}"
+    ctx.obligation(f"correspondence: GET /broker/queue with a broker fault after k pops == Monitor.queueViewFault ({n} requests, mem + sqlite)", nd == 0, first)
 
 
 def _has_record(app, i: str) -> bool:
